@@ -149,3 +149,24 @@ Proof.
   pose proof (job_create_ok _ tz now j Hv Hc) as Hcr. split; [|exact (cr_max _ _ _ _ Hcr)].
   cbn in Hn. rewrite utc_dt_now in Hn. exact Hn.
 Qed.
+
+(* ---- cyclic jobs with skip_missing (C08) ------------------------------------------------------------- *)
+(* job level: if the timer is not in the future at the execution instant r, the next due time is
+   exactly r + T *)
+Theorem cyclic_skip_job j T nxt r :
+  job_ok j -> c_type (j_cfg j) = CYCLIC -> c_skip (j_cfg j) = true ->
+  j_timers j = [mkTimer CYCLIC (TCyclic T) nxt true] -> aware r = tz_aware (j_tz j) ->
+  utc nxt <= utc r -> 0 < j_attempts j ->
+  exists j', job_calc j r = Ok j' /\ utc (job_datetime j') = utc r + T.
+Proof.
+  intros Hok Hty Hsk Htm Hr Hdue Hat.
+  destruct (job_calc_ok j r Hok Hr) as (j' & Hj' & Hok' & Hcfg & _ & _ & Hat' & _ & _ & Hct & _).
+  exists j'. split; [exact Hj'|].
+  unfold calc_timers in Hct. rewrite Hsk, Htm in Hct. cbn [mapM jt_next] in Hct.
+  pose proof (jok_timers j Hok) as Hwf. rewrite Htm in Hwf. inversion Hwf as [|? ? (_ & _ & Haw & _) _]; subst.
+  cbn [jt_next] in Haw. rewrite dt_sub_same in Hct by congruence. cbn [bind] in Hct.
+  replace (ts_le (utc nxt - utc r) 0) with true in Hct by (unfold ts_le; lia).
+  rewrite timer_cyclic_skip in Hct. cbn in Hct. inversion Hct as [Hct'].
+  unfold job_datetime, pending_timer. rewrite Hat'. replace (j_attempts j =? 0) with false by lia.
+  rewrite andb_false_r. rewrite (cyclic_pending0 j' _ Hok' (eq_sym Hct')), <- Hct'. cbn. apply utc_dt_add.
+Qed.
